@@ -25,7 +25,7 @@ import (
 // MExpr is a match expression over changed(), level(), name(), taskName(), alertDuration().
 // The oracle evaluates this tree itself; the service gets the rendered text.
 type MExpr struct {
-	Op  string  `json:"op"`            // "" (none) | changed | level | name | task | dur | and | or | not
+	Op  string  `json:"op"`            // "" (none) | changed | level | name | task | dur | tag | and | or | not
 	Cmp string  `json:"cmp,omitempty"` // == != < <= > >=
 	V   int     `json:"v,omitempty"`
 	A   []MExpr `json:"a,omitempty"`
@@ -38,6 +38,8 @@ var (
 	durLits     = []string{"0s", "10s", "1m"}
 	durLitVals  = []time.Duration{0, 10 * time.Second, time.Minute}
 	allCmps     = []string{"==", "!=", "<", "<=", ">", ">="}
+	evHosts     = []string{"", "db01", "db02", "db01"} // tag host of an event; "" = the event has no such tag
+	tagVals     = []string{"db01", "db02"}
 	changedText = []string{"changed() == TRUE", "changed() == FALSE", "changed()", "changed() != TRUE"}
 )
 
@@ -53,6 +55,8 @@ func (e MExpr) render() string {
 		return fmt.Sprintf("taskName() %s '%s'", e.Cmp, evTasks[e.V%2])
 	case "dur":
 		return fmt.Sprintf("alertDuration() %s %s", e.Cmp, durLits[e.V%3])
+	case "tag":
+		return fmt.Sprintf("\"host\" == '%s'", tagVals[e.V%2])
 	case "and":
 		return "(" + e.A[0].render() + ") AND (" + e.A[1].render() + ")"
 	case "or":
@@ -72,6 +76,7 @@ type mEvent struct {
 	dur   time.Duration
 	name  string
 	task  string
+	host  string // "" = no tag host
 	noExt bool
 }
 
@@ -116,6 +121,10 @@ func (e MExpr) eval(ev mEvent, prev int) bool {
 		return (ev.task == evTasks[e.V%2]) == (e.Cmp == "==")
 	case "dur":
 		return cmpInt(int64(ev.dur), e.Cmp, int64(durLitVals[e.V%3]))
+	case "tag":
+		// only generated as the whole condition or as a conjunct of it: an event without the tag
+		// does not satisfy it under any reading of a missing tag
+		return ev.host != "" && ev.host == tagVals[e.V%2]
 	case "and":
 		return e.A[0].eval(ev, prev) && e.A[1].eval(ev, prev)
 	case "or":
@@ -179,6 +188,7 @@ type SOp struct {
 	Tk    int    `json:"tk,omitempty"`
 	D     int    `json:"d,omitempty"`
 	NoExt bool   `json:"noext,omitempty"`
+	Hs    int    `json:"hs,omitempty"` // collect: index into evHosts (0 = the event has no tag host)
 	H     int    `json:"h,omitempty"`    // handler id index
 	H2    int    `json:"h2,omitempty"`   // upd: id index of the new spec
 	Kind  int    `json:"kind,omitempty"` // 0 publish, 1 log
@@ -231,6 +241,7 @@ func genSOp(persist bool) func(t *rapid.T) SOp {
 			op.Tk = rapid.IntRange(0, 1).Draw(t, "task")
 			op.D = rapid.IntRange(0, len(evDurs)-1).Draw(t, "dur")
 			op.NoExt = rapid.IntRange(0, 9).Draw(t, "noext") == 9
+			op.Hs = rapid.IntRange(0, 3).Draw(t, "host")
 		case k < 53:
 			op.K = "update"
 			op.I = rapid.IntRange(0, 3).Draw(t, "id")
@@ -267,6 +278,17 @@ func genSOp(persist bool) func(t *rapid.T) SOp {
 			}
 			if rapid.IntRange(0, 3).Draw(t, "hasmatch") > 0 {
 				op.Match = genMatch(t, 0)
+			}
+			// a condition on a tag of the event: alone, or AND-ed with the rest
+			if rapid.IntRange(0, 3).Draw(t, "tagmatch") == 0 {
+				tag := MExpr{Op: "tag", V: rapid.IntRange(0, 1).Draw(t, "tagval")}
+				if op.Match.Op == "" {
+					op.Match = tag
+				} else if rapid.Bool().Draw(t, "tagfirst") {
+					op.Match = MExpr{Op: "and", A: []MExpr{tag, op.Match}}
+				} else {
+					op.Match = MExpr{Op: "and", A: []MExpr{op.Match, tag}}
+				}
 			}
 		}
 		op.P = rapid.IntRange(0, len(svcPatterns)-1).Draw(t, "pattern")
@@ -650,11 +672,16 @@ func (h *svcHarness) apply(op SOp) {
 		n := h.serial
 		h.serial++
 		ev := mEvent{id: eventIDs[op.I%4], msg: fmt.Sprintf("m%d", n), level: op.L % 4, time: baseTime + n, dur: evDurs[op.D%len(evDurs)],
-			name: evNames[op.Nm%2], task: evTasks[op.Tk%2], noExt: op.NoExt}
+			name: evNames[op.Nm%2], task: evTasks[op.Tk%2], host: evHosts[op.Hs%len(evHosts)], noExt: op.NoExt}
+		var tags map[string]string
+		if ev.host != "" {
+			tags = map[string]string{"host": ev.host, "dc": "x"}
+			x.label("event-with-tag")
+		}
 		h.modelCollect(st, ev)
 		err := h.as.Collect(alert.Event{Topic: name, NoExternal: ev.noExt,
 			State: alert.EventState{ID: ev.id, Message: ev.msg, Time: time.Unix(ev.time, 0).UTC(), Duration: ev.dur, Level: alert.Level(ev.level)},
-			Data:  alert.EventData{Name: ev.name, TaskName: ev.task}})
+			Data:  alert.EventData{Name: ev.name, TaskName: ev.task, Tags: tags}})
 		if err != nil {
 			x.fail("collect/error", "Collect of event %s on topic %s returned %v", ev.msg, name, err)
 		}
@@ -1158,6 +1185,7 @@ func fmtSOp(op SOp) string {
 }
 
 var serviceAssumptions = []string{
+	"a match condition on a tag (\"host\" == 'db01') is generated only as the whole condition or as a conjunct of it; an event without that tag does not satisfy it",
 	"match functions (no user documentation in the repository; names and closures in services/alert/handlers.go): changed() = the event's level differs from the level of the preceding event with the same id on the topic (OK if none), level() = the event's level with OK<INFO<WARNING<CRITICAL, name() = measurement name, taskName() = task name, alertDuration() = the event's duration (the function called duration() in the property text was renamed, CHANGELOG #2448)",
 	"handlers are observed through private targets: a publish handler republishes to its own sink topic that carries an anonymous recording handler (RegisterAnonHandler); a log handler appends alert.Data JSON to its own file; log is an external handler and skips events flagged NoExternal (externalHandler doc comment)",
 	"for the first event with some id on a publish target the previous level may be OK or the previous level it had on the source topic (the statement does not say which)",
